@@ -17,6 +17,7 @@ def main():
     bad = 0
     for name, (sig, frag) in py2lean_cases.EXPECT.items():
         tr = py2lean.Translator('exec')
+        tr.lock_exprs = {'LOCK'}
         try:
             tr.function(mod, None, name, 'function', list(sig))
             text = '\n'.join(t for _, t in tr.defs)
